@@ -37,6 +37,7 @@ class Sched:
         self.active = False
         self.aborted = False
         self.kinds = None  # set to a list to have the kind of every yield point recorded (used to pick preemption points of a long run)
+        self.opcode_files = set()  # files in which every executed byte-code instruction is a yield point (races inside one source line)
 
     # ------------------------------------------------------------------ set-up
     def add(self, fn, name=None):
@@ -177,12 +178,16 @@ class Worker:
 
     def _tracer(self, frame, event, arg):
         if frame.f_code.co_filename in self.s.files:
+            if frame.f_code.co_filename in self.s.opcode_files:
+                frame.f_trace_opcodes = True
             return self._local
         return None
 
     def _local(self, frame, event, arg):
         if event == "line":
             self.s.yield_point(("line", frame.f_code.co_name, frame.f_lineno))
+        elif event == "opcode":
+            self.s.yield_point(("opcode", frame.f_code.co_name, frame.f_lineno, frame.f_lasti))
         return self._local
 
     def _run(self):
